@@ -63,6 +63,7 @@ DAILY_BASE = {
     "gaps":  ("2019-01-01", 365, TZ, CURVE_A, 1.0),
     "poor":  ("2019-01-01", 365, TZ, None, 0.0),
     "east":  ("2019-01-01", 365, TZ_OTHER, CURVE_A, 1.0),
+    "allheat": ("2019-01-01", 365, TZ, (5.0, 1.2, 95.0, 0.0, 100.0), 1.0),      # usage falls with temperature over the WHOLE observed range: the balance point ends up on its segment bound
     "long":  ("2018-10-01", 400, TZ, CURVE_A, 1.0),       # more than 365 days
     "neggas": ("2019-01-01", 365, TZ, CURVE_A, 1.0),     # a gas meter with a few negative readings
     "netpoor": ("2019-01-01", 365, TZ, None, 0.0),       # a net-metered building that exports more than it draws: spiky usage, mean below zero
